@@ -162,7 +162,9 @@ def run(ctx):
     okn = len(calls) == 1 and any(k.arg == "n" and src(k.value) == "self._resume_n_models" for k in calls[0][1].keywords)
     ctx.ob("R-LIN", "C11.4", rs, "n is the number of models at the time the checkpoint was pickled (_resume_n_models)", okn, "")
     gs = ctx.fn(tables.IFM + ".__getstate__")
-    okg = any(isinstance(n, ast.Assign) and any(src(t) == "state['_resume_n_models']" for t in n.targets) and src(n.value) == "len(d['models'])" for n in walk_no_nested(gs.node))
+    from ..pat import find_stmt as _fs
+    dd = _fs("$$d = self.__dict__", gs.node)
+    okg = len(dd) == 1 and len(_fs("$$s['_resume_n_models'] = len($$d['models'])", gs.node, {"d": dd[0][1]["d"]})) == 1
     ctx.ob("R-LIN", "C11.4", gs, "the pickled count is len(models)", okg, "")
     # every model counted at an INS checkpoint has its weights saved: add_new_flow -> flow.train (which saves) before any checkpoint
     itr = ctx.fn(tables.IFP + ".train")
@@ -241,7 +243,7 @@ class SamplerReader:
         ctx.ob("R-FS", "C11.3", br, "SamplerClass.resume opens and unpickles exactly the file it is given", k == 0 and any(isinstance(n, ast.Call) and call_name(n) == "pickle.load" for n in walk_no_nested(br.node)), f"loader parameter index {k}")
         # NestedSampler.resume_from_pickled_sampler -> _flow_proposal.resume(model, flow_config, weights_path)
         nr = ctx.fn(tables.NS + ".resume_from_pickled_sampler")
-        calls = [c for _, c in FA(nr).find_calls("obj._flow_proposal.resume")]
+        calls = [c for _, c in FA(nr).find_expr(lambda e: isinstance(e, ast.Call) and isinstance(e.func, ast.Attribute) and e.func.attr == "resume" and isinstance(e.func.value, ast.Attribute) and e.func.value.attr == "_flow_proposal")]
         ctx.require(len(calls) == 1, "NestedSampler.resume_from_pickled_sampler: flow proposal resume call not found")
         self.fpr = ctx.fn(tables.FP + ".resume")
         self.attempts_desc = []
